@@ -55,6 +55,7 @@ Record NodePos := { start_position : option Position; end_position : option Posi
 Inductive LineEndings := LineEndings_Unix | LineEndings_Windows.
 Inductive IndentType := IndentType_Tabs | IndentType_Spaces.
 Inductive SpaceAfterFunctionNames := SpaceAfterFunctionNames_Never | SpaceAfterFunctionNames_Definitions | SpaceAfterFunctionNames_Calls | SpaceAfterFunctionNames_Always.
+Inductive CollapseSimpleStatement := CollapseSimpleStatement_Never | CollapseSimpleStatement_FunctionOnly | CollapseSimpleStatement_ConditionalOnly | CollapseSimpleStatement_Always.
 Inductive CallParenType := CallParenType_Always | CallParenType_NoSingleString | CallParenType_NoSingleTable | CallParenType_None | CallParenType_Input.
 Inductive WsToken := TokenType_tabs (n : nat) | TokenType_spaces (n : nat).
 Definition Token_new (t : WsToken) : WsToken := t.
